@@ -105,6 +105,7 @@ def main(tier, seed):
   pool = bfs.make_pool()
   try:
     for name, params, depth in CONFIGS[tier]:
+      params = dict(params, prefixes=list(PREFIXES))
       res = bfs.run_bfs('vt.lbharness', 'expand', params, depth, pool, seed=seed, stop_on_violation=False)
       res.violations = [v for v in res.violations if v['clause'].startswith(PREFIXES)]
       rep.add_bfs(name, res, depth, params=params, replay_base={'params': params})
